@@ -137,6 +137,9 @@ func (handler *HeadersHandler) Handle(ctx context.Context, m wire.Message) ([]wi
 		if handler.state.BlockIsRequested(&header.PrevBlock) ||
 			handler.state.BlockIsToBeRequested(&header.PrevBlock) {
 			logger.Info(ctx, "Reorg in pending blocks")
+			// Poll again after this, like for a reorg in processed blocks, so that a late duplicate
+			// of an older announcement can't leave the node on a branch the peer has abandoned.
+			handler.state.ClearInSync()
 			handler.state.ClearBlockRequestsAfter(ctx, header.PrevBlock)
 
 			// Request it if it isn't already requested.
